@@ -1985,3 +1985,101 @@ class MetaOrderX(Oracle):
                 return (None, "the same instance with %s attributes in %s parses to another tree: %s" %
                         (("canonical", "permuted")[k % 2], "xxjj"[k], diff_hint(strip(d[0]), strip(d[k]))))
         return None
+
+
+# ------------------------------------------------------------------------------------------------
+# T2 for XmlQn.v: the namespace definitions and attribute prefixes of single start tags
+# ------------------------------------------------------------------------------------------------
+class QnTagModel(Comp):
+    """xml_print_node_open / xml_print_meta / xml_print_ns for prefixed values vs XmlQn.open_tag: a container of the types
+    family (RoundTripTypes / QNamesX: own prefixes distinct, shared, or equal to a generated one) with metadata and one leaf
+    (identityref, instance-identifier, union, plain) with metadata - annotation values identityref / instance-identifier /
+    plain - is printed by libyang; what stands in the two start tags after the element name (namespace definitions,
+    metadata attributes with their prefixes and values) must be BYTE-IDENTICAL to the model's, the container's definitions
+    being the scope of the leaf. Cases in which one prefix is needed for two namespaces (listed finding
+    xml-same-prefix-value-clash) are included: the model is the printer as coded."""
+    name = "qntag"
+    driver = "t_doc"
+    slice = "xmlqn"
+    NSOF = {"pa": "urn:verif:ta", "pb": "urn:verif:tb", "pc": "urn:verif:tc"}
+
+    @staticmethod
+    def pieces(own, text, node_value):
+        """(XML text for the input, model pieces) of a value given with the input prefixes pa / pb / pc; in the value of a
+        node an identity of the node's module ta is printed without prefix"""
+        import re
+        h = lambda b: hexs(b.encode())
+        ownof = dict(zip(("pa", "pb", "pc"), own))
+        out, pos = [], 0
+        bare = node_value and re.fullmatch(r"pa:[\w.-]+", text)
+        for m in re.finditer(r"(?<![\w.:-])(pa|pb|pc):", text):
+            if m.start() > pos:
+                out.append("L" + h(text[pos:m.start()]))
+            if not bare:
+                out.append("R%s.%s" % (h(ownof[m.group(1)]), h(QnTagModel.NSOF[m.group(1)])))
+            pos = m.end()
+        if pos < len(text):
+            out.append("L" + h(text[pos:]))
+        return "+".join(out)
+
+    def gen(self, rng, tier, scale=1.0):
+        h = lambda b: hexs(b.encode())
+        mods = {}
+        L = []
+        idents = ["pb:b-one", "pc:c-one", "pa:a-one", "pb:shared", "pc:shared", "pa:shared"]
+        iids = ["/pa:g-uint8/pa:v", "/pa:g-string/pa:v", "/pa:g-ident/pa:l[pa:k='pb:b-one']/pa:x"]
+        pool = [("pb", "an-uint8", ["5", "17"]), ("pa", "own-uint8", ["7"]), ("pb", "an-string", ["a b", "x"]), ("pb", "an-ident", idents),
+                ("pa", "own-ident", idents), ("pb", "anu-ident", idents + ["free text"]), ("pb", "an-iid", iids), ("pa", "own-iid", iids),
+                ("pb", "an-unionir", ["pb:b-one", "-7", "/pa:g-int8/pa:v"])]
+        leaves = [("ident", "v", idents), ("ident", "u1", idents), ("iid", "v", iids), ("uint8", "v", ["5"]), ("uint8", "u3", ["pb:b-one", "pc:shared"]),
+                  ("unionir", "v", ["pb:b-one", "pc:shared", "-7", "/pa:g-int8/pa:v"]), ("string", "v", ["plain"])]
+        owns = [("pa", "pb", "pc"), ("p", "p", "p"), ("pa", "q", "q"), ("p1", "p", "p"), ("p", "p2", "p1"), ("p", "pb", "p")]
+        for i in range(self.n(tier, 180, 6000, scale)):
+            own = owns[i % len(owns)]
+            if own not in mods:
+                mods[own] = types_modules(own)
+            tb, tc, ta = mods[own]
+            tid, leaf, vals = rng.choice(leaves)
+            val = rng.choice(vals)
+
+            def metas(k):
+                out, used = [], set()
+                for _ in range(k):
+                    pfx, nm, mv = rng.choice(pool)
+                    if nm in used:
+                        continue
+                    used.add(nm)
+                    out.append((pfx, nm, rng.choice(mv)))
+                return out
+            m0, m1 = metas(rng.choice([0, 0, 1, 2])), metas(rng.choice([0, 1, 2, 3]))
+            xa = lambda ms: "".join(' %s:%s="%s"' % (p, nm, yanggen.xml_attr(v)) for p, nm, v in ms)
+            data = "<g-%s%s%s><%s%s>%s</%s></g-%s>" % (tid, TYPES_NS, xa(m0), leaf, xa(m1), yanggen.xml_text(val), leaf, tid)
+            enc = lambda ms: ",".join("%s.%s.%s.%s" % (h(dict(zip(("pa", "pb", "pc"), own))[p]), h(self.NSOF[p]), h(nm), self.pieces(own, v, False))
+                                      for p, nm, v in ms)
+            q = "%s/%s/;%s/%s/%s" % (h(self.NSOF["pa"]), enc(m0), h(self.NSOF["pa"]), enc(m1), self.pieces(own, val, True))
+            s = Script()
+            s.ctx(searchdir=TEST_MODULES)
+            s.mod(tb)
+            s.mod(tc)
+            s.mod(ta)
+            s.parse(0, "x", data, popts=PARSE_ONLY | PARSE_STRICT, vopts=0)
+            s.add("print", "t0", "x", SIB | PRINT_SHRINK)
+            L.append("qntag\t#q %s\t" % q + "\t".join(s.cmds))
+        return L
+
+    def norm(self, line, out):
+        if " | end:" not in out:
+            return out                        # the model's answer (or a crash)
+        import re
+        r = results(out)[1:]
+        if any(rc(x) != 0 for x in r[:6]):
+            return "impl-refused " + " ".join(r[:6])
+        doc = payload(r[5])
+        m = re.match(rb"<[^\s/>]+((?: [^>]*)?)>(?:<[^\s/>]+((?: [^>]*)?)>)?", doc)
+        if not m:
+            return "impl-unreadable " + hexs(doc)
+        tags = []
+        for g in (m.group(1), m.group(2)):
+            g = g or b""
+            tags.append(hexs(g[:-1] if g.endswith(b"/") else g))
+        return " | ".join(tags)
